@@ -42,6 +42,15 @@ Theorem C11_resolve_reaches_every_depth : forall reg, RegWF reg ->
   (forall a, no_ext_arg a = true -> clean_arg reg (resolve_arg reg a) = true).
 Proof. exact resolve_deep_both. Qed.
 
+(* the same with the inductive reading of "a resolvable opaque type remains somewhere" (Remains is
+   reflected by the boolean: clean reg t = false <-> Remains reg t) *)
+Theorem C11_no_resolvable_opaque_remains : forall reg t, RegWF reg -> no_ext t = true ->
+  ~ Remains reg (resolve_ty reg t).
+Proof. exact no_resolvable_opaque_remains. Qed.
+Theorem C11_clean_reflects_remains : forall reg,
+  (forall t, clean reg t = false <-> Remains reg t) /\ (forall a, clean_arg reg a = false <-> RemainsArg reg a).
+Proof. exact remains_clean_both. Qed.
+
 (* ---- nothing to resolve: the object is returned as it was; operations that are not opaque, and opaque
    operations without a definition (including the opaque types of their signature), are not touched *)
 Theorem C11_resolve_untouched_otherwise : forall reg,
@@ -107,6 +116,8 @@ Proof. exact ex_nontrivial. Qed.
 Print Assumptions C11_resolve_exactly_when_defined.
 Print Assumptions C11_resolve_pointwise.
 Print Assumptions C11_resolve_reaches_every_depth.
+Print Assumptions C11_no_resolvable_opaque_remains.
+Print Assumptions C11_clean_reflects_remains.
 Print Assumptions C11_resolve_untouched_otherwise.
 Print Assumptions C11_resolve_preserves_encoding.
 Print Assumptions C11_resolve_preserves_model_export.
